@@ -3,6 +3,7 @@
   Line = space separated `key=value` tokens; every string value is hex of its UTF-8 bytes.
 -/
 import Jawk.Model.Run
+import Jawk.Model.Args
 import Jawk.Driver.DocCheck
 namespace Jawk.Driver
 open Jawk
@@ -40,6 +41,8 @@ structure Case where
   jopts : JsonOpts := {}
   topts : TextOpts := {}
   expr : Str := []
+  /-- the command line after the program name, when the harness sent it -/
+  argv : Option (List Str) := none
   deriving Inhabited
 
 def parseOrc (v : String) : Option (String × List Str × Option JV) :=
@@ -110,6 +113,7 @@ def applyToken (c : Case) (tok : String) : Case :=
       | some o => { c with orc := c.orc ++ [o] }
       | none => c
     | "expr" => { c with expr := unhexStr v }
+    | "argv" => { c with argv := some (if v = "-" then [] else (v.splitOn ",").map unhexStr) }
     | _ => c
   | _ => c
 
@@ -141,7 +145,15 @@ def runCase (line : String) : String :=
     let o := mainModel orc cfg c.sources { room := c.wfail } { room := c.efail }
     s!"id={c.id} res=exit:{o.code} out={hexOf o.fd1} err={hexOf o.fd2}"
   | _ =>
-    let r := run orc cfg c.sources { room := c.wfail } { room := c.efail }
+    -- the configuration comes from the model of the command line when the command line was sent
+    match (match c.argv with
+      | none => some (cfg, c.sources)
+      | some av => (Args.parseArgs av).map (fun p =>
+          (p.cfg, if p.files.isEmpty then c.sources.filter (·.name.isNone)
+                  else p.files.filterMap (fun f => c.sources.find? (·.name = some f))))) with
+    | none => s!"id={c.id} res=err:config out= err= pulled="
+    | some (cfg, sources) =>
+    let r := run orc cfg sources { room := c.wfail } { room := c.efail }
     let res := match r.result with
       | .ok () => "ok"
       | .error f => "err:" ++ failKind f
